@@ -90,7 +90,16 @@ def structural_mutations(blob: bytes, rng: random.Random, n: int) -> t.Iterator[
     for _ in range(n):
         nd = rng.choice(nodes)
         start, hl, ln = nd.offset, nd.hdr_len, nd.length
-        k = rng.randrange(15)
+        k = rng.randrange(16)
+        if k == 15:
+            # the same element many times over (ancestors re-encoded consistently): a SET OF / SEQUENCE OF that the format
+            # uses with exactly one member - recipients, attributes, parameters - given 3 / 40 / 300 members
+            times = rng.choice([3, 3, 40, 300])
+            enc = blob[start : start + hl + ln]
+            if len(enc) * times < 400000:
+                yield f"repeat-element-x{times}", consistent_rewrite(blob, nd, rng, force=enc * times)
+                continue
+            k = 4
         if k == 0:  # zero-length content
             yield "zero-length", blob[:start] + der.tlv(nd.cls, nd.constructed, nd.number, b"") + blob[start + hl + ln :]
         elif k == 1:  # length octet rewritten
@@ -262,6 +271,9 @@ def deterministic_structure_mutations(blob: bytes) -> t.Iterator[t.Tuple[str, by
         yield f"consistent-empty[{idx}]", consistent_rewrite(blob, nd, rng, force=der.tlv(nd.cls, nd.constructed, nd.number, b""))
         enc = blob[nd.offset : nd.offset + nd.total]
         yield f"consistent-duplicate[{idx}]", consistent_rewrite(blob, nd, rng, force=enc + enc)
+        if nd.constructed and len(enc) * 300 < 400000:
+            for times in (3, 40, 300):
+                yield f"consistent-repeat[{idx}]x{times}", consistent_rewrite(blob, nd, rng, force=enc * times)
         if not nd.constructed and 1 <= nd.length <= 2:
             for v in range(256):
                 if v != nd.content[0]:
